@@ -9,6 +9,8 @@ import JSight.ATreeStrip
 import JSight.ATreeExamples
 import JSight.AstTextQ
 import JSight.AnnotQExamples
+import JSight.AstTextShort
+import JSight.ShortE2EExamples
 /-!
 # C16 — GetAST mirrors the schema text: the decision logic that is a theorem
 
@@ -336,5 +338,81 @@ example := C16_ast_of_annotated_tree_quoted_partial .inline rfl Lay.Ex.one [32] 
 example := C16_ast_ignores_name_quoting .inline .multi rfl rfl Lay.Ex.one [32] [32] Lay.Ex.gobQ [] [] [32] [10, 32]
   Lay.Ex.gobB [10] [42, 47, 10] Lay.Ex.gannQ_valid Lay.Ex.gannB_valid Lay.Ex.gobQ_lits gobB_lits Lay.Ex.gsame_pairs
   exQPairs_not_emb
+
+/-! ### schema texts whose values are TYPE SHORTCUTS: events, node table, AST
+
+`SE.BST` / `SchemaScan.STree`: JSON trees with layout whose leaves are scalars or type shortcuts `@name` / `@a | @b …`
+(root, member value, array item; any nesting; see `Props.C09` for `SE.TextOK`). -/
+
+/-- **the events of a type shortcut in ordinary mode, in every value position** (class level): the text of a tree whose
+leaves are scalars or shortcuts is scanned into exactly `sEvsAt` of the tree; for a shortcut that starts at `o` and
+whose last byte — the blanks behind the last name included — is at `e`:
+`mixed-value-begin[o:o] types-shortcut-begin[o:o] types-shortcut-end[o:e] mixed-value-end[o:e']`, `e' = e - 1` when the
+byte at `e` is a SPACE and `e' = e` otherwise, inside `item` / `value` events ending at `e`; behind it a line break, `,`,
+`]`, `}` or the end of input -/
+theorem C16_shortcut_events_of_tree (v : SchemaScan.STree) (hv : v.Valid) (ws0 ws1 : List SchemaScan.Cls)
+    (h0 : SchemaScan.IsWs ws0) (h1 : SchemaScan.IsWs ws1) (hf : SchemaScan.Follow v ws1) (bs : List UInt8)
+    (hbs : bs.map SchemaScan.classify = ws0 ++ (v.render ++ ws1)) :
+    SchemaScan.scanAll bs
+      = .ok (SchemaScan.nlEvs 0 ws0 ++ (SchemaScan.sEvsAt ws0.length v ++
+          SchemaScan.nlEvs (ws0.length + v.render.length) ws1)) :=
+  SchemaScan.C06_schema_events_of_shortcut_tree v hv ws0 ws1 h0 h1 hf bs hbs
+
+/-- **the node table of such a text** (scanner model and loader model interleaved as in `doLoad`): one node per value in
+pre-order; a shortcut leaf is a `mixed` node whose value span is the `mixed-value-end` lexeme and whose only rule is the
+synthesised `type` (`@A`) / `or` (`@A | @B`) with the shortcut's span as its value (`Loader.shortNode`) -/
+theorem C16_shortcut_tree_loads (v : SchemaScan.STree) (hv : v.Valid) (ws0 ws1 : List SchemaScan.Cls)
+    (h0 : SchemaScan.IsWs ws0) (h1 : SchemaScan.IsWs ws1) (hf : SchemaScan.Follow v ws1)
+    (bs : List UInt8) (hbs : bs.map SchemaScan.classify = ws0 ++ (v.render ++ ws1))
+    (hd : LoaderS.KeysDistinct bs.toArray ws0.length v) :
+    ∃ st, Loader.loadText bs = .ok st ∧ st.root = some 0 ∧ st.nodes.toList = LoaderS.nodesOf none 0 ws0.length v :=
+  LoaderS.loadText_mirrors_stree v hv ws0 ws1 h0 h1 hf bs hbs hd
+
+/-- **C16 at text level for shortcut values**: `astOfText` of the text of a tree whose leaves are scalars or type
+shortcuts (any depth and layout) is the AST of the TREE, by offsets into the text (`AstText.S.astOff`): one node per
+value in source order; a shortcut leaf is what `ownOf` makes of the loader's shortcut node — a REFERENCE node
+(`C16_shortcut_leaf_type` / `_or`) -/
+theorem C16_shortcut_reference_nodes_text (w0 : SE.Bytes) (t : SE.BST) (w1 : SE.Bytes) (h : SE.TextOK w0 t w1) :
+    AstText.astOfText (SE.docText w0 t w1)
+      = AstText.S.astOff (SE.docText w0 t w1).toArray (AstText.eventsOf (SE.docText w0 t w1)) w0.length t.cls
+          ([], false) :=
+  AstText.S.ast_of_stree_text w0 t w1 h
+
+/-- a leaf **`@A`** of that AST: TokenType `reference`, Value and SchemaType the name, the rule `type` marked generated -/
+theorem C16_shortcut_leaf_type (src : Array UInt8) (evs : List SchemaScan.Ev) (o : Nat)
+    (sc : SchemaScan.Len.Shortcut) (sps : List SchemaScan.Cls) (key : AstText.Bytes × Bool) (ha : sc.alts = [])
+    (hp : AstText.hasPipe (Loader.trimSpaces (Loader.slice src o (AstText.S.mixEnd o sc sps))) = false) :
+    AstText.S.astOff src evs o (.short sc sps) key
+      = .ok (.mk key.1 key.2 "reference" (Loader.trimSpaces (Loader.slice src o (AstText.S.mixEnd o sc sps)))
+          (Loader.trimSpaces (Loader.slice src o (AstText.S.mixEnd o sc sps))) []
+          [(AstText.sb "type", AstText.leaf
+            (if AstText.isUserTypeName (AstText.unq (Loader.trimSpaces (Loader.slice src o (AstText.S.tsEnd o sc sps))))
+              then "reference" else "string")
+            (AstText.unq (Loader.trimSpaces (Loader.slice src o (AstText.S.tsEnd o sc sps)))) .generated)] []) :=
+  AstText.S.astOff_short_type src evs o sc sps key ha hp
+
+/-- a leaf **`@A | @B`**: TokenType `reference`, SchemaType `mixed`, Value the names as written, the rule `or` — one item
+per name in written order — marked generated throughout -/
+theorem C16_shortcut_leaf_or (src : Array UInt8) (evs : List SchemaScan.Ev) (o : Nat)
+    (sc : SchemaScan.Len.Shortcut) (sps : List SchemaScan.Cls) (key : AstText.Bytes × Bool) (ha : sc.alts ≠ [])
+    (hp : AstText.hasPipe (Loader.trimSpaces (Loader.slice src o (AstText.S.mixEnd o sc sps))) = true) :
+    AstText.S.astOff src evs o (.short sc sps) key
+      = .ok (.mk key.1 key.2 "reference" (AstText.sb "mixed")
+          (Loader.trimSpaces (Loader.slice src o (AstText.S.mixEnd o sc sps))) []
+          [(AstText.sb "or", .mk "array" [] [] .generated []
+            ((AstText.splitPipe (Loader.slice src o (AstText.S.tsEnd o sc sps))).map
+              fun nm => AstText.leaf "string" nm .generated))] []) :=
+  AstText.S.astOff_short_or src evs o sc sps key ha hp
+
+/-! Non-vacuity: root `{"a": @A | @B ,⏎ "b": [@C⏎], "c": 1}` (`SE.Ex.root`); the leaf `@A | @B ` at offset 6 of that
+text; the leaf `@C` of the text ` @C`. -/
+example := C16_shortcut_reference_nodes_text [] SE.Ex.root [] SE.Ex.root_ok
+example := C16_shortcut_events_of_tree SE.Ex.root.cls SE.Ex.root_valid [] [] (SE.Ex.ws_ok [] rfl) (SE.Ex.ws_ok [] rfl)
+  (by intro h; cases h) (SE.docText [] SE.Ex.root []) (by simp only [SE.docText, List.map_append, SE.render_cls]; rfl)
+example (evs : List SchemaScan.Ev) (key : AstText.Bytes × Bool) :=
+  C16_shortcut_leaf_or (SE.docText [] SE.Ex.root []).toArray evs 6 (SE.clsSc [65] [([32], [32], [66])]) (SE.clsB [32]) key
+    (by simp [SE.clsSc, SE.clsAlts]) (by decide +kernel)
+example (evs : List SchemaScan.Ev) (key : AstText.Bytes × Bool) :=
+  C16_shortcut_leaf_type #[32, 64, 67] evs 1 (SE.clsSc [67] []) (SE.clsB []) key rfl (by decide +kernel)
 
 end Props.C16
